@@ -93,6 +93,13 @@ def runOp (st : DState) (op : String) (args : List String) : DState × String :=
       match p.enc with
       | .ok b => "ok " ++ hx b ++ " | " ++ (match PHY.dec b with | .ok f => fmtFrame f | .err => "ERR" | .panic => "PANIC")
       | .err => "ERR" | .panic => "PANIC")
+  | "phytextrt" => (st, withArgs args frame fun p =>
+      match p.enc with
+      | .ok b => "ok t" ++ String.ofList (Base64.encode b) ++ " | " ++
+          (match Base64.decode (Base64.encode b) with
+           | some b' => (match PHY.dec b' with | .ok f => fmtFrame f | .err => "ERR" | .panic => "PANIC")
+           | none => "ERR")
+      | .err => "ERR" | .panic => "PANIC")
   | "jart" => (st, withArgs args frame fun p =>
       match p.payload with
       | some (.joinAccept ja) =>
